@@ -90,12 +90,17 @@ func findCell(id string) *Cell {
 
 var watchdog *time.Timer
 
+// watchdogAfter is deliberately long: a run takes milliseconds, but the whole
+// sandbox may be paused for minutes (snapshots), and a watchdog that fires
+// then is a false "not a verdict".
+const watchdogAfter = 20 * time.Minute
+
 func armWatchdog(what string) {
 	if watchdog != nil {
 		watchdog.Stop()
 	}
-	watchdog = time.AfterFunc(120*time.Second, func() {
-		fmt.Fprintf(os.Stderr, "WATCHDOG: %s did not finish within 120s: a task blocks in something the simulator does not own\n", what)
+	watchdog = time.AfterFunc(watchdogAfter, func() {
+		fmt.Fprintf(os.Stderr, "WATCHDOG: %s did not finish within 20 minutes: a task blocks in something the simulator does not own\n", what)
 		os.Exit(2)
 	})
 }
